@@ -191,8 +191,25 @@ def run_mode(ctx, res, mode):
     batches, enum_total, enum_used = enumerated_batches(ctx, res)
     vlib.write_ndjson(ctx.path("cases.ndjson"), cases)
     vlib.run_harness(["typegen", vlib.CLI_BIN, ctx.path("cases.ndjson"), ctx.path("events.ndjson"), ctx.path("proj"), "12"], timeout=3000)
-    events = vlib.read_ndjson(ctx.path("events.ndjson"))
-    o = vlib.validate_trace("Trace_C01", "Trace_C01.cfg", events, workdir=ctx.work, timeout=3400, xmx="3g", extra_env={"MODE": mode, "TIER": ctx.tier})
+    # the recorded runs are never all held in memory (thousands of declaration-file ASTs): the few aggregates the evidence needs are
+    # taken line by line, and TLC gets the file
+    import hashlib
+    n_events = n_panicked = n_exit = 0
+    distinct_docs, sample_doc = set(), None
+    with open(ctx.path("events.ndjson")) as fh:
+        for line in fh:
+            if not line.strip():
+                continue
+            e = json.loads(line)
+            n_events += 1
+            n_panicked += 1 if e["panicked"] else 0
+            n_exit += 1 if e["exit"] != 0 else 0
+            distinct_docs.add(hashlib.sha1(json.dumps(e["opFiles"], sort_keys=True).encode()).hexdigest())
+            if sample_doc is None and e["exit"] == 0:
+                sample_doc = e["opFiles"][0]["doc"]["defs"][0]["sel"][:2]
+            del e
+    o = vlib.validate_trace("Trace_C01", "Trace_C01.cfg", ctx.path("events.ndjson"), workdir=ctx.work, timeout=3400, xmx="3g",
+                            extra_env={"MODE": mode, "TIER": ctx.tier})
     # the enumerated documents: a large trace, written by the harness and handed to TLC as a file (never loaded here)
     for b in batches:
         b["evName"] = "TypeGenBatch"
@@ -214,7 +231,7 @@ def run_mode(ctx, res, mode):
         raise vlib.ToolError("the emitted __SelectionSet prelude is not the text TsTypes.tla's semantics was derived from")
     res.traces = len(judged)
     res.evaluations = o.events
-    res.distinct_nontrivial = len({json.dumps(e["opFiles"], sort_keys=True) for e in events}) - len(discards)
+    res.distinct_nontrivial = len(distinct_docs) - len(discards)
     ndefs_ok = sum(s["ok"] for s in judged)
     ndefs_beyond = sum(s["beyond"] for s in judged)
     sizes = [x for s in judged for x in s["sizes"]]
@@ -236,15 +253,14 @@ def run_mode(ctx, res, mode):
                  sum(s.get("discardedFiles", 0) for s in judged)))
     res.extra.update({"enumerated_documents_total": enum_total, "enumerated_documents_run": enum_used,
                       "enumerated_documents_discarded": sum(s.get("discardedFiles", 0) for s in judged)})
-    ev0 = next((e for e in events if e["exit"] == 0), events[0])
-    res.samples = [{"document": ev0["opFiles"][0]["doc"]["defs"][0]["sel"][:2]}]
+    res.samples = [{"document": sample_doc}]
     res.extra.update({"cases": len(cases), "definitions_judged": ndefs_ok, "definitions_beyond_bound": ndefs_beyond,
                       "largest_set": max(sizes) if sizes else 0, "total_set_sizes": sum(sizes), "discarded": len(discards),
                       "discard_reasons": {k: sum(1 for s in discards if s["discard"] == k) for k in {s["discard"] for s in discards}},
-                      "outcomes": {"panicked": sum(1 for e in events if e["panicked"]), "exit_nonzero": sum(1 for e in events if e["exit"] != 0)},
+                      "outcomes": {"panicked": n_panicked, "exit_nonzero": n_exit},
                       "trace_action_coverage": o.coverage})
-    if len(discards) > 0.25 * len(events):
-        raise vlib.ToolError("too many discarded cases: %d of %d (%s)" % (len(discards), len(events), json.dumps(discards[0])[:300]))
+    if len(discards) > 0.25 * n_events:
+        raise vlib.ToolError("too many discarded cases: %d of %d (%s)" % (len(discards), n_events, json.dumps(discards[0])[:300]))
     res.assumptions = ["denotation of the emitted TypeScript subset as in TsTypes.tla, in particular __SelectionSet<Orig,Obj,Others> read from its "
                        "emitted definition with an optional `never` member reading as absent (DESIGN.md 4.3); no TypeScript compiler is available offline",
                        "FieldsInSetCanMerge and the absence of unused fragments/variables hold by construction of the generators",
